@@ -49,6 +49,13 @@ def path_patterns(tier='quick', alpha='a'):
     if tier != 'quick':
         for a, b, c, d in itertools.product(segs[:6], repeat=4):
             pats.append(mkpath([a, b, c, d]))
+    # runs of consecutive globstar segments (they count as one) followed by segment-start-sensitive tokens
+    gs, gsl, a, star, q = (('gs',),), (('gsl',),), (L(alpha),), (('star',),), (('q',),)
+    for pre in ([], [a]):
+        for g1, g2 in itertools.product((gs, gsl), repeat=2):
+            for tail in ([star], [q], [a], [gs, a], [gs, star], [gs, (L('b'),)], [(('ext', '@', ((('star',),),)),)], [(('br', True, (('ch', 'b'),)), ('star',))]):
+                pats.append(mkpath(pre + [g1, g2] + tail))
+            pats.append(mkpath(pre + [g1, g2, star], trail=True))
     # `/` inside brackets and groups: only generated where the statement is definite (none here)
     return list(dict.fromkeys(pats))
 
